@@ -8,18 +8,20 @@ from vcheck import *
 
 P = "Cppcms.C10.Props."
 OBLIGATIONS = [
-    (P + "consistent_sharding", "key -> server index is a function of (number of servers, key) only and lies below the number of servers: every client picks the same server"),
-    (P + "frame_roundtrip", "byte image of a frame (header words little endian + payload) parses back to the same header and payload"),
-    (P + "wire_roundtrip_store_partial", "WFwire k v ts d: the server's parse of the client's store frame yields key, value, deadline unchanged and the same trigger set (excluded: empty key, empty / NUL-containing trigger names, >= 2^31 bytes)"),
-    (P + "wire_roundtrip_data_partial", "the client's parse of the server's data reply yields value, deadline, generation unchanged and (names non-empty... NUL-free) the same trigger set"),
-    (P + "step_eq_astep", "under the size bounds the byte/word-level model (headers, length fields, uint32 truncation) equals the message-level model used in the coherence proofs"),
-    (P + "gen_unique", "on one server two entries that ever carried the same generation are the same entry (same key, value, triggers, deadline), for histories of < 2^64 operations"),
-    (P + "l1_inv", "every L1 entry (k,v,deadline,g) was at some earlier point of the history the responsible server's entry for k with generation g"),
-    (P + "coherent_fetch", "a fetch on any node (with or without L1) that returns (v,deadline,g) does so only if a direct fetch on the responsible server at that moment returns the same v, deadline, g"),
-    (P + "coherent_fetch_ideal_partial", "for histories whose stores are WFwire: every hit carries the value and deadline the ideal shared cache holds for the key now (latest store by any node, not invalidated by any node's rise/clear), Spec.answerOk"),
-    (P + "trigger_nul_counterexample", "finding tcp-trigger-nul: a trigger name a\\0b is split into a and b; rise of a\\0b by any node leaves the entry, the next fetch returns the stale value"),
-    (P + "trigger_empty_counterexample", "finding tcp-trigger-empty: a store with an empty trigger name is answered with error and dropped; the previous value of the key stays and is served"),
-    (P + "key_nul_counterexample", "finding tcp-key-nul: the entry's own key travels back as a NUL-terminated trigger name; a key k\\0x comes back as the names k and x"),
+    (P + "consistent_sharding", "key -> server index is a function of (number of servers, key) only, lies below the number of servers, and a fetch/store of k by any client (any L1 configuration) touches no other server"),
+    (P + "frame_roundtrip", "byte image of a frame (header words little endian + payload), followed by anything, parses back to the same header and payload"),
+    (P + "wire_roundtrip_store_partial", "WFwire k v ts d: the frame tcp_cache::store builds is well formed and session::store performs exactly that store: same key, value, deadline, same set of trigger names (excluded: empty key, empty / NUL-containing names, >= 2^31 bytes)"),
+    (P + "wire_roundtrip_data_partial", "the server holds k -> (v,trigs,deadline,g), sizes fit, names NUL-free: tcp_cache::fetch returns v, deadline, g unchanged and the same set of trigger names"),
+    (P + "step_eq_astep", "under the size bounds one cluster operation over the real codec (headers, uint32 fields, frame validation, strlen loops) EQUALS the operation over the message-level transport used in the coherence proofs"),
+    (P + "gen_unique", "on one server two entries that ever (after any two prefixes of the history) carried the same generation are the same entry; histories of < 2^64 operations"),
+    (P + "l1_inv", "every L1 entry (k,v,deadline,g) was after some prefix of the history the responsible server's entry for k with generation g"),
+    (P + "coherent_fetch", "a fetch on any node (with or without L1, any limits, any number of clients/servers) returning (v,deadline,g) implies: a direct fetch on the responsible server at that moment returns the same v, deadline, g; no WFwire hypothesis"),
+    (P + "coherent_fetch_ideal_partial", "histories whose stores are WFwire: every hit satisfies Spec.answerOk against the ideal shared cache = value and deadline of the latest store of the key by ANY node, not invalidated since by ANY node's rise/clear, not expired"),
+    (P + "trigger_nul_counterexample", "finding tcp-trigger-nul: trigger a\\0b is split into a and b; after rise(a\\0b) by another node both nodes are still served the value the ideal cache no longer holds"),
+    (P + "trigger_empty_counterexample", "finding tcp-trigger-empty: a store with an empty trigger name is dropped by the server; the previous value stays and is served to every node"),
+    (P + "key_nul_counterexample", "finding tcp-key-nul: for the key k\\0x a fetch asking for the trigger set receives {k,x}; the predicate's trigger clause is false, its value clause true"),
+    (P + "coherentIdealFull_false", "the full-strength 'no older value' statement (no WFwire hypothesis) is false of the model"),
+    (P + "wireRoundtripStoreFull_false", "the full-strength store round trip (all contents) is false of the model"),
 ]
 
 TRUSTED = [
